@@ -4,7 +4,7 @@
    Written from the documented layout, NOT from the Go code:
      - fixed-width numbers little-endian, signed ones in two's complement, floats as their IEEE bit pattern
      - bool = one byte, 0 or 1, nothing else is a bool
-     - string / byte slice = length prefix (1, 2 or 4 bytes, little-endian) + the bytes
+     - string / byte slice = length prefix (1, 2, 4 or 8 bytes, little-endian) + the bytes
      - byte array [N]byte = the N bytes, after the object-type code if the type has one
      - slice / array of anything else = length prefix (element count) + the elements back to back
      - map = length prefix (entry count) + entries (key bytes + value bytes) in byte-lexical order
@@ -52,14 +52,15 @@ RECURSIVE Flatten(_)
 Flatten(ss) == IF Len(ss) = 0 THEN <<>> ELSE Head(ss) \o Flatten(Tail(ss))
 
 Huge == 1073741824       \* every length >= 2^30 is "more than any input holds"; keeps TLC inside 32 bits
-\* little-endian unsigned value of the first w bytes of b (w in {1,2,4}), capped at Huge
-LenVal(b, w) == IF w = 4 /\ b[4] >= 64 THEN Huge
-                ELSE IF w = 4 THEN b[1] + 256 * b[2] + 65536 * b[3] + 16777216 * b[4]
+\* little-endian unsigned value of the first w bytes of b (w in {1,2,4,8}), capped at Huge
+LenVal(b, w) == IF w = 8 /\ (b[5] # 0 \/ b[6] # 0 \/ b[7] # 0 \/ b[8] # 0) THEN Huge
+                ELSE IF w >= 4 /\ b[4] >= 64 THEN Huge
+                ELSE IF w >= 4 THEN b[1] + 256 * b[2] + 65536 * b[3] + 16777216 * b[4]
                 ELSE IF w = 2 THEN b[1] + 256 * b[2]
                 ELSE b[1]
 \* little-endian w bytes of l (0 <= l < 2^30)
-LenBytes(w, l) == M([k \in 1..w |-> (l \div (256 ^ (k - 1))) % 256])
-FitsPfx(w, l)  == w = 4 \/ l < 256 ^ w
+LenBytes(w, l) == M([k \in 1..w |-> IF k > 4 THEN 0 ELSE (l \div (256 ^ (k - 1))) % 256])
+FitsPfx(w, l)  == w >= 4 \/ l < 256 ^ w
 
 \* object-type code: [w |-> 0 (none) | 1 | 4, c |-> number]
 CodeBytes(code) == IF code.w = 0 THEN <<>> ELSE LenBytes(code.w, code.c)
@@ -174,7 +175,11 @@ Enc(s, v, V) ==
          ELSE Ok(LenBytes(s.lp, Len(v)) \o Flatten(SortSeq(M([i \in 1..Len(v) |-> ks.raw[i] \o xs.raw[i]]), LexLess)))
     [] s.k = "struct" -> LET f == EncFields(s.f, v, 1, V) IN IF ~f.ok THEN Err ELSE Ok(CodeBytes(s.code) \o f.b)
     [] s.k = "opt"    -> IF ~v.some THEN Ok(<<0, 0, 0, 0>>)
-                         ELSE LET p == Enc(s.t, v.v, V) IN IF ~p.ok THEN Err ELSE Ok(LenBytes(4, Len(p.b)) \o p.b)
+                         ELSE LET p == Enc(s.t, v.v, V) IN
+                              \* a present value with an empty encoding would read back as "absent": not representable
+                              IF ~p.ok \/ Len(p.b) = 0 THEN Err ELSE Ok(LenBytes(4, Len(p.b)) \o p.b)
+    \* embedded pointer to a struct: flattened like an embedded struct; a nil pointer has nothing to flatten
+    [] s.k = "eptr"   -> IF ~v.some THEN Err ELSE Enc(s.t, v.v, V)
     [] s.k = "iface"  -> LET A == {j \in 1..Len(s.alts) : s.alts[j].c = v.c} IN
                          IF A = {} THEN Err ELSE Enc(s.alts[MinOf(A)].t, v.v, V)
     [] s.k = "u256"   -> IF v.n \/ ~FitsU(v.m, 32) THEN Err ELSE Ok(UBytes(v.m, 32))
@@ -247,6 +252,7 @@ Dec(s, b, V) ==
               IF l = 0 THEN OkD([some |-> FALSE], 4)
               ELSE LET r == Dec(s.t, Tail2(b, 4), V) IN
                    IF ~r.ok \/ r.n # l THEN ErrD ELSE OkD([some |-> TRUE, v |-> r.v], 4 + l)
+    [] s.k = "eptr" -> LET r == Dec(s.t, b, V) IN IF ~r.ok THEN ErrD ELSE OkD([some |-> TRUE, v |-> r.v], r.n)
     [] s.k = "iface" ->
          IF Len(b) < s.w THEN ErrD
          ELSE LET c == LenVal(b, s.w)
@@ -278,7 +284,7 @@ Canon(s, v, all) ==
                              ps == [k |-> "struct", code |-> [w |-> 0, c |-> 0], f |-> <<s.key, s.val>>]
                          IN  ByEnc(ps, c)
     [] s.k = "struct" -> M([i \in 1..Len(v) |-> Canon(s.f[i], v[i], all)])
-    [] s.k = "opt"    -> IF v.some THEN [some |-> TRUE, v |-> Canon(s.t, v.v, all)] ELSE v
+    [] s.k \in {"opt", "eptr"} -> IF v.some THEN [some |-> TRUE, v |-> Canon(s.t, v.v, all)] ELSE v
     [] s.k = "iface"  -> LET A == {j \in 1..Len(s.alts) : s.alts[j].c = v.c}
                          IN  IF A = {} THEN v ELSE [c |-> v.c, v |-> Canon(s.alts[MinOf(A)].t, v.v, all)]
     [] OTHER -> v
@@ -290,7 +296,7 @@ Oos(s, v) ==
     [] s.k \in {"slice", "arr"} -> \E i \in 1..Len(v) : Oos(s.e, v[i])
     [] s.k = "map"    -> \E i \in 1..Len(v) : Oos(s.key, v[i][1]) \/ Oos(s.val, v[i][2])
     [] s.k = "struct" -> \E i \in 1..Len(v) : Oos(s.f[i], v[i])
-    [] s.k = "opt"    -> v.some /\ Oos(s.t, v.v)
+    [] s.k \in {"opt", "eptr"} -> v.some /\ Oos(s.t, v.v)
     [] s.k = "iface"  -> LET A == {j \in 1..Len(s.alts) : s.alts[j].c = v.c}
                          IN  A # {} /\ Oos(s.alts[MinOf(A)].t, v.v)
     [] OTHER -> FALSE
@@ -307,9 +313,27 @@ MinWidth(s) ==
     [] s.k \in {"barr", "custom"} -> s.code.w + s.n
     [] s.k = "struct" -> s.code.w + SumMin(s.f, 1)
     [] s.k = "opt" -> 4
+    [] s.k = "eptr" -> MinWidth(s.t)
     [] s.k = "iface" -> s.w
     [] s.k = "u256" -> 32
     [] s.k = "time" -> 8
+
+\* the width of every encoding if the schema is fixed-width, else -1
+RECURSIVE FixedWidth(_)
+RECURSIVE SumFixed(_, _)
+SumFixed(fs, i) == IF i > Len(fs) THEN 0
+                   ELSE LET h == FixedWidth(fs[i])  t == SumFixed(fs, i + 1)
+                        IN  IF h < 0 \/ t < 0 THEN -1 ELSE h + t
+FixedWidth(s) ==
+  CASE s.k = "bool" -> 1
+    [] s.k = "num" -> s.w
+    [] s.k \in {"barr", "custom"} -> s.code.w + s.n
+    [] s.k = "arr" -> LET e == FixedWidth(s.e) IN IF e < 0 THEN -1 ELSE s.lp + s.n * e
+    [] s.k = "struct" -> LET f == SumFixed(s.f, 1) IN IF f < 0 THEN -1 ELSE s.code.w + f
+    [] s.k = "eptr" -> FixedWidth(s.t)
+    [] s.k = "u256" -> 32
+    [] s.k = "time" -> 8
+    [] OTHER -> -1
 
 \* size of a value: the number of leaves (bytes, numbers, booleans, empty collections count 1)
 RECURSIVE Size(_, _)
@@ -321,7 +345,7 @@ Size(s, v) ==
     [] s.k = "map" -> 1 + SumSize([i \in 1..Len(v) |-> s.key], [i \in 1..Len(v) |-> v[i][1]], 1)
                         + SumSize([i \in 1..Len(v) |-> s.val], [i \in 1..Len(v) |-> v[i][2]], 1)
     [] s.k = "struct" -> 1 + SumSize(s.f, v, 1)
-    [] s.k = "opt" -> IF v.some THEN 1 + Size(s.t, v.v) ELSE 1
+    [] s.k \in {"opt", "eptr"} -> IF v.some THEN 1 + Size(s.t, v.v) ELSE 1
     [] s.k = "iface" -> LET A == {j \in 1..Len(s.alts) : s.alts[j].c = v.c}
                         IN  IF A = {} THEN 1 ELSE 1 + Size(s.alts[MinOf(A)].t, v.v)
     [] OTHER -> 1
@@ -333,7 +357,7 @@ Static(s) ==
   CASE s.k \in {"barr", "custom"} -> 1 + s.n
     [] s.k = "arr" -> 1 + s.n * Static(s.e)
     [] s.k = "struct" -> 1 + SumStatic(s.f, 1)
-    [] s.k = "opt" -> 1 + Static(s.t)
+    [] s.k \in {"opt", "eptr"} -> 1 + Static(s.t)
     [] s.k = "iface" -> 1 + (LET S == {Static(s.alts[j].t) : j \in 1..Len(s.alts)} IN CHOOSE x \in S : \A y \in S : y <= x)
     [] OTHER -> 1
 =============================================================================
